@@ -118,6 +118,9 @@ def run(ctx, R):
     intr = S.intrinsics()
     intr.update(T.intrinsics())
     intr[IR + "FoldSpecificFieldKind::field_type"] = lambda ip, n, a: INT_NN
+    # Vid / Eid are modelled by their payload (a positive integer): constructing one from a payload is the identity
+    intr[IR + "Vid::new"] = lambda ip, n, a: A.deref(a[0])
+    intr[IR + "Eid::new"] = lambda ip, n, a: A.deref(a[0])
 
     # ---------------- r1
     p = C.fn(FE + "parse")
@@ -234,12 +237,21 @@ def run(ctx, R):
         try:
             for dp in def_paths:
                 for up in use_paths:
-                    for rel, pre_used in [(r_, p_) for r_ in ("before", "same", "after") for p_ in (False, True)]:
+                    for rel, pre_used in [(r_, p_) for r_ in ("before", "same", "after", "fold-before", "fold-same", "fold-next", "fold-after")
+                                          for p_ in (False, True)]:
                         # pre_used: the same tag was already referenced elsewhere in the query (e.g. from a sibling fold);
                         # the decision and the import bookkeeping must not depend on that history
                         use_vid = 10
-                        dvid = {"before": 7, "same": 10, "after": 12}[rel]
-                        field = A.Enum(IR + "FieldRef", "ContextField", [cf(dvid)])
+                        if rel.startswith("fold-"):
+                            # a fold-specific tag (`@fold @transform(op: "count") @tag`): its value exists once the fold has been
+                            # computed, i.e. from the fold's root vertex on; vertex and edge ids advance in lockstep (r2), so the
+                            # fold's edge id is its root vid - 1 - the vertex with that vid is resolved *before* the fold
+                            dvid = {"fold-before": 7, "fold-same": 10, "fold-next": 11, "fold-after": 13}[rel]
+                            field = A.Enum(IR + "FieldRef", "FoldSpecificField", [A.Struct(IR + "FoldSpecificField", {
+                                "fold_eid": dvid - 1, "fold_root_vid": dvid, "kind": A.Enum(IR + "FoldSpecificFieldKind", "Count")})])
+                        else:
+                            dvid = {"before": 7, "same": 10, "after": 12}[rel]
+                            field = A.Enum(IR + "FieldRef", "ContextField", [cf(dvid)])
                         entry = A.Struct(FE + "tags::TagEntry", {"name": "t", "field": field, "path": path(dp)})
                         stack = A.VecV([A.Tuple([r, A.VecV([])]) for r in up[1:]])
                         th = A.Struct(FE + "tags::TagHandler", {"tags": S.MapV([("t", entry)]), "used_tags": S.SetV(["t"] if pre_used else []),
